@@ -594,6 +594,28 @@ Proof.
   rewrite Hw64. reflexivity.
 Qed.
 
+Lemma skipn_skipn' {A} (a b : nat) (l : list A) : skipn a (skipn b l) = skipn (b + a) l.
+Proof. revert l. induction b as [|b IH]; intros l; [reflexivity|]. destruct l as [|x r]; [destruct a; reflexivity|]. cbn [skipn plus]. apply IH. Qed.
+
+(** same shape: lists and structs correspond element by element (so every list keeps its length and order) *)
+Definition is_leaf (v : val) : bool := match v with VList _ | VStruct _ => false | _ => true end.
+Inductive shape : val -> val -> Prop :=
+| sh_list la lb : Forall2 shape la lb -> shape (VList la) (VList lb)
+| sh_struct la lb : Forall2 shape la lb -> shape (VStruct la) (VStruct lb)
+| sh_leaf a b : is_leaf a = true -> is_leaf b = true -> shape a b.
+
+Lemma encode_field_leaf fs st v st' : encode_field fs st v = Ok st' -> is_leaf v = true.
+Proof.
+  destruct st as [d o]. unfold encode_field, encode_core. intros H.
+  destruct (f_inv fs); [destruct v; try discriminate; reflexivity|].
+  destruct (f_dt fs); destruct v; try discriminate; reflexivity.
+Qed.
+Lemma decode_field_leaf fs d o v o' : decode_field fs d o = Ok (v, o') -> is_leaf v = true.
+Proof.
+  unfold decode_field. intros H. crush H; inversion H; subst; try reflexivity;
+    match goal with E : decode_core _ _ = Ok _ |- _ => unfold decode_core in E; crush E; inversion E; subst; reflexivity end.
+Qed.
+
 Section Accept.
   Variable sigt : gnss -> sigtable.
   Variable ssr59 ssr65 : sigtable.
@@ -643,39 +665,39 @@ Section Accept.
   Definition acc_at (f : frag) : Prop :=
     plain f = true -> counts_ok f = true -> forall d o v d' o', bytes_ok d = true -> 0 <= o ->
       enc f (d, o) v = Ok (d', o') ->
-      o <= o' /\ bytes_ok d' = true /\ zlen d' = zlen d /\ agree d d' 0 o /\ exists v', dec f d' o = Ok (v', o').
+      o <= o' /\ bytes_ok d' = true /\ zlen d' = zlen d /\ agree d d' 0 o /\ exists v', dec f d' o = Ok (v', o') /\ shape v v'.
 
   Lemma list_acc : forall fl, Forall acc_at fl -> forallb plain fl = true -> forallb counts_ok fl = true ->
     forall vs d o d' o', bytes_ok d = true -> 0 <= o -> go_enc fl vs (d, o) = Ok (d', o') ->
-      o <= o' /\ bytes_ok d' = true /\ zlen d' = zlen d /\ agree d d' 0 o /\ exists vs', go_dec d' fl o = Ok (vs', o').
+      o <= o' /\ bytes_ok d' = true /\ zlen d' = zlen d /\ agree d d' 0 o /\ exists vs', go_dec d' fl o = Ok (vs', o') /\ Forall2 shape vs vs'.
   Proof.
     induction 1 as [|f fl Hf _ IH]; intros Hp Hc vs d o d' o' Hb Ho H.
     - destruct vs; [|discriminate]. inversion H; subst. split; [lia|]. split; [exact Hb|]. split; [reflexivity|]. split; [apply agree_refl|].
-      exists []. reflexivity.
+      exists []. split; [reflexivity|constructor].
     - cbn [forallb] in Hp, Hc. apply andb_true_iff in Hp, Hc. destruct Hp as [Hp1 Hp2]. destruct Hc as [Hc1 Hc2].
       destruct vs as [|x vs]; [discriminate|].
       destruct (enc f (d, o) x) as [[d1 o1]|e|] eqn:E1; cbn [bind] in H; try discriminate.
-      destruct (Hf Hp1 Hc1 d o x d1 o1 Hb Ho E1) as [M1 [B1 [L1 [A1 [x' D1]]]]].
-      destruct (IH Hp2 Hc2 vs d1 o1 d' o' B1 ltac:(lia) H) as [M2 [B2 [L2 [A2 [vs' D2]]]]].
+      destruct (Hf Hp1 Hc1 d o x d1 o1 Hb Ho E1) as [M1 [B1 [L1 [A1 [x' [D1 S1]]]]]].
+      destruct (IH Hp2 Hc2 vs d1 o1 d' o' B1 ltac:(lia) H) as [M2 [B2 [L2 [A2 [vs' [D2 S2]]]]]].
       split; [lia|]. split; [exact B2|]. split; [lia|]. split.
       + eapply agree_trans; [exact A1|]. apply (agree_sub _ _ 0 o1); [exact A2|lia|lia].
-      + exists (x' :: vs').
+      + exists (x' :: vs'). split; [|constructor; assumption].
         rewrite (decode_frag_ext sigt ssr59 ssr65 cap59 cap65 f Hp1 d1 d' o x' o1 B1 B2 Ho D1 ltac:(apply (agree_sub _ _ 0 o1); [exact A2|lia|lia])).
         cbn [bind]. rewrite D2. reflexivity.
   Qed.
 
   Lemma elems_acc elem : acc_at elem -> plain elem = true -> counts_ok elem = true ->
     forall l d o d' o', bytes_ok d = true -> 0 <= o -> el_enc elem l (d, o) = Ok (d', o') ->
-      o <= o' /\ bytes_ok d' = true /\ zlen d' = zlen d /\ agree d d' 0 o /\ exists l', el_dec elem d' (length l) o = Ok (l', o').
+      o <= o' /\ bytes_ok d' = true /\ zlen d' = zlen d /\ agree d d' 0 o /\ exists l', el_dec elem d' (length l) o = Ok (l', o') /\ Forall2 shape l l'.
   Proof.
     intros He Hp Hc. induction l as [|x l IH]; intros d o d' o' Hb Ho H.
-    - inversion H; subst. split; [lia|]. split; [exact Hb|]. split; [reflexivity|]. split; [apply agree_refl|]. exists []. reflexivity.
+    - inversion H; subst. split; [lia|]. split; [exact Hb|]. split; [reflexivity|]. split; [apply agree_refl|]. exists []. split; [reflexivity|constructor].
     - destruct (enc elem (d, o) x) as [[d1 o1]|e|] eqn:E1; cbn [bind] in H; try discriminate.
-      destruct (He Hp Hc d o x d1 o1 Hb Ho E1) as [M1 [B1 [L1 [A1 [x' D1]]]]].
-      destruct (IH d1 o1 d' o' B1 ltac:(lia) H) as [M2 [B2 [L2 [A2 [l' D2]]]]].
+      destruct (He Hp Hc d o x d1 o1 Hb Ho E1) as [M1 [B1 [L1 [A1 [x' [D1 S1]]]]]].
+      destruct (IH d1 o1 d' o' B1 ltac:(lia) H) as [M2 [B2 [L2 [A2 [l' [D2 S2]]]]]].
       split; [lia|]. split; [exact B2|]. split; [lia|]. split.
       + eapply agree_trans; [exact A1|]. apply (agree_sub _ _ 0 o1); [exact A2|lia|lia].
-      + exists (x' :: l'). cbn [length].
+      + exists (x' :: l'). split; [|constructor; assumption]. cbn [length].
         rewrite (decode_frag_ext sigt ssr59 ssr65 cap59 cap65 elem Hp d1 d' o x' o1 B1 B2 Ho D1 ltac:(apply (agree_sub _ _ 0 o1); [exact A2|lia|lia])).
         cbn [bind]. rewrite D2. reflexivity.
   Qed.
@@ -694,7 +716,7 @@ Qed.
 
 Lemma encode_str_decodes cap lb d o v d' o' : 1 <= lb <= 8 -> 0 <= cap < 2 ^ lb -> bytes_ok d = true -> 0 <= o ->
   encode_str cap lb (d, o) v = Ok (d', o') ->
-  o <= o' /\ bytes_ok d' = true /\ zlen d' = zlen d /\ agree d d' 0 o /\ exists v', decode_str cap lb d' o = Ok (v', o').
+  o <= o' /\ bytes_ok d' = true /\ zlen d' = zlen d /\ agree d d' 0 o /\ exists v', decode_str cap lb d' o = Ok (v', o') /\ shape v v'.
 Proof.
   intros Hl Hc Hb Ho H. unfold encode_str in H. destruct v as [| | | | | | |cs|]; try discriminate. cbn [fst snd] in H.
   set (bytes := df88591_from_str cap cs) in *.
@@ -721,7 +743,7 @@ Proof.
   - unfold decode_str.
     rewrite <- (parse_ext KU 8 d1 d' o lb ltac:(lia) ltac:(lia) Ho B1 B2 ltac:(apply (agree_sub _ _ 0 (o + lb)); [exact A2|lia|lia])), Pa. cbn [bind].
     destruct (Z.ltb_spec cap (zlen bytes)); [lia|].
-    replace (Z.to_nat (zlen bytes)) with (length bytes) by (unfold zlen; lia). rewrite Pa2. cbn [bind]. eexists. reflexivity.
+    replace (Z.to_nat (zlen bytes)) with (length bytes) by (unfold zlen; lia). rewrite Pa2. cbn [bind]. eexists. split; [reflexivity|]. apply sh_leaf; reflexivity.
 Qed.
 
 Section AcceptMain.
@@ -759,8 +781,9 @@ Section AcceptMain.
     - (* field *)
       intros fs Hp _ d o v d' o' Hb Ho E. apply andb_true_iff in Hp. destruct Hp as [Hrt Hok].
       cbn [encode_frag decode_frag] in *. destruct (field_dec_ok_widths fs Hok) as [_ W].
-      destruct (encode_field_decodes fs d o v d' o' Hrt Hok Hb Ho E) as [-> [B [L [A Dv]]]].
-      split; [lia|]. split; [exact B|]. split; [exact L|]. split; [exact A|exact Dv].
+      destruct (encode_field_decodes fs d o v d' o' Hrt Hok Hb Ho E) as [-> [B [L [A [v' Dv]]]]].
+      split; [lia|]. split; [exact B|]. split; [exact L|]. split; [exact A|]. exists v'. split; [exact Dv|].
+      apply sh_leaf; [eapply encode_field_leaf; exact E|eapply decode_field_leaf; exact Dv].
     - (* descriptor string *)
       intros cap lb Hp Hc d o v d' o' Hb Ho E. apply andb_true_iff in Hp. destruct Hp as [Hp L3]. apply andb_true_iff in Hp. destruct Hp as [L1 L2].
       apply Z.leb_le in L1, L2, L3. apply Z.ltb_lt in Hc. cbn [encode_frag decode_frag] in *.
@@ -768,8 +791,8 @@ Section AcceptMain.
     - (* struct *)
       intros l Hl Hp Hc d o v d' o' Hb Ho E. rewrite all_plain_eq in Hp. rewrite all_counts_eq in Hc. cbn [encode_frag] in E.
       destruct v as [| | | | | |vs| |]; try discriminate.
-      destruct (list_acc sigt ssr59 ssr65 cap59 cap65 l Hl Hp Hc vs d o d' o' Hb Ho E) as [M [B [L [A [vs' D]]]]].
-      split; [exact M|]. split; [exact B|]. split; [exact L|]. split; [exact A|]. exists (VStruct vs'). cbn [decode_frag]. rewrite D. reflexivity.
+      destruct (list_acc sigt ssr59 ssr65 cap59 cap65 l Hl Hp Hc vs d o d' o' Hb Ho E) as [M [B [L [A [vs' [D S]]]]]].
+      split; [exact M|]. split; [exact B|]. split; [exact L|]. split; [exact A|]. exists (VStruct vs'). split; [cbn [decode_frag]; rewrite D; reflexivity|apply sh_struct; exact S].
     - (* length in the middle *)
       intros f1 lenf f2 elem cap H1 H2 He Hp Hc d o v d' o' Hb Ho E.
       rewrite (all_plain_eq f1), (all_plain_eq f2) in Hp. rewrite (all_counts_eq f1), (all_counts_eq f2) in Hc.
@@ -783,13 +806,13 @@ Section AcceptMain.
       destruct (go_enc f1 (firstn (length f1) vs) (d, o)) as [[d1 o1]|e|] eqn:E1; cbn [bind] in E; try discriminate.
       destruct (encode_field lenf (d1, o1) (VInt (zlen l))) as [[d2 o2]|e|] eqn:E2; cbn [bind] in E; try discriminate.
       destruct (go_enc f2 (firstn (length f2) (skipn (length f1) vs)) (d2, o2)) as [[d3 o3]|e|] eqn:E3; cbn [bind] in E; try discriminate.
-      destruct (list_acc sigt ssr59 ssr65 cap59 cap65 f1 H1 P1 C1 _ d o d1 o1 Hb Ho E1) as [M1 [B1 [L1 [A1 [vs1' D1]]]]].
+      destruct (list_acc sigt ssr59 ssr65 cap59 cap65 f1 H1 P1 C1 _ d o d1 o1 Hb Ho E1) as [M1 [B1 [L1 [A1 [vs1' [D1 S1]]]]]].
       destruct (encode_field_frame lenf d1 o1 _ d2 o2 Pl2 ltac:(lia) B1 E2) as [-> [Hfit2 [L2 [B2 A2]]]].
       destruct (field_dec_ok_widths lenf Pl2) as [_ Wl].
       pose proof (zlen_nonneg l) as Hl0.
       pose proof (len_field_rt lenf d1 o1 (zlen l) d2 _ Pl2 Pl3 B1 ltac:(lia) ltac:(lia) E2) as D2.
-      destruct (list_acc sigt ssr59 ssr65 cap59 cap65 f2 H2 P2 C2 _ d2 (o1 + f_len lenf) d3 o3 B2 ltac:(lia) E3) as [M3 [B3 [L3 [A3 [vs2' D3]]]]].
-      destruct (elems_acc sigt ssr59 ssr65 cap59 cap65 elem He Pe Ce l d3 o3 d' o' B3 ltac:(lia) E) as [M4 [B4 [L4 [A4 [l' D4]]]]].
+      destruct (list_acc sigt ssr59 ssr65 cap59 cap65 f2 H2 P2 C2 _ d2 (o1 + f_len lenf) d3 o3 B2 ltac:(lia) E3) as [M3 [B3 [L3 [A3 [vs2' [D3 S3]]]]]].
+      destruct (elems_acc sigt ssr59 ssr65 cap59 cap65 elem He Pe Ce l d3 o3 d' o' B3 ltac:(lia) E) as [M4 [B4 [L4 [A4 [l' [D4 S4]]]]]].
       split; [lia|]. split; [exact B4|]. split; [lia|]. split.
       + eapply agree_trans; [exact A1|]. eapply agree_trans; [apply (agree_sub _ _ 0 o1); [exact A2|lia|lia]|].
         eapply agree_trans; [apply (agree_sub _ _ 0 (o1 + f_len lenf)); [exact A3|lia|lia]|].
@@ -798,7 +821,12 @@ Section AcceptMain.
         { eapply agree_trans; [exact A3|]. apply (agree_sub _ _ 0 o3); [exact A4|lia|lia]. }
         assert (A14 : agree d1 d' 0 o1).
         { eapply agree_trans; [exact A2|]. apply (agree_sub _ _ 0 (o1 + f_len lenf)); [exact A24|lia|lia]. }
-        eexists. cbn [decode_frag].
+        exists (VStruct (vs1' ++ vs2' ++ [VList l'])). split.
+        2:{ apply sh_struct.
+            rewrite <- (firstn_skipn (length f1) vs). rewrite <- (firstn_skipn (length f2) (skipn (length f1) vs)).
+            rewrite skipn_skipn', Esk.
+            apply Forall2_app; [exact S1|]. apply Forall2_app; [exact S3|]. constructor; [apply sh_list; exact S4|constructor]. }
+        cbn [decode_frag].
         rewrite (list_ext' sigt ssr59 ssr65 cap59 cap65 f1 P1 d1 d' o vs1' o1 B1 B4 Ho D1 ltac:(apply (agree_sub _ _ 0 o1); [exact A14|lia|lia])). cbn [bind].
         rewrite <- (decode_field_ext lenf d2 d' o1 Pl2 ltac:(lia) B2 B4 ltac:(apply (agree_sub _ _ 0 (o1 + f_len lenf)); [exact A24|lia|lia])), D2. cbn [bind].
         rewrite (list_ext' sigt ssr59 ssr65 cap59 cap65 f2 P2 d3 d' (o1 + f_len lenf) vs2' o3 B3 B4 ltac:(lia) D3 ltac:(apply (agree_sub _ _ 0 o3); [exact A4|lia|lia])). cbn [bind].
@@ -819,10 +847,10 @@ Section AcceptMain.
       assert (Hr : representable KU lb (zlen l)) by (cbn [representable]; lia).
       destruct (put_parse_roundtrip KU 16 d o (zlen l) lb ltac:(lia) ltac:(lia) Ho Hfit Hb Hr) as [d1' [Pu' Pa]].
       rewrite Pu in Pu'. inversion Pu'; subst d1'.
-      destruct (elems_acc sigt ssr59 ssr65 cap59 cap65 elem He Pe Ce l d1 (o + lb) d' o' B1 ltac:(lia) E) as [M4 [B4 [L4 [A4 [l' D4]]]]].
+      destruct (elems_acc sigt ssr59 ssr65 cap59 cap65 elem He Pe Ce l d1 (o + lb) d' o' B1 ltac:(lia) E) as [M4 [B4 [L4 [A4 [l' [D4 S4]]]]]].
       split; [lia|]. split; [exact B4|]. split; [lia|]. split.
       + eapply agree_trans; [exact A1|]. apply (agree_sub _ _ 0 (o + lb)); [exact A4|lia|lia].
-      + eexists. cbn [decode_frag].
+      + exists (VList l'). split; [|apply sh_list; exact S4]. cbn [decode_frag].
         rewrite <- (parse_ext KU 16 d1 d' o lb ltac:(lia) ltac:(lia) Ho B1 B4 ltac:(apply (agree_sub _ _ 0 (o + lb)); [exact A4|lia|lia])), Pa. cbn [bind].
         destruct (Z.ltb_spec cap (zlen l)); [lia|].
         replace (Z.to_nat (zlen l)) with (length l) by (unfold zlen; lia). rewrite D4. reflexivity.
@@ -830,9 +858,9 @@ Section AcceptMain.
       intros elem He Hp Hc d o v d' o' Hb Ho E.
       cbn [encode_frag] in E. destruct v as [| | | | |l| | |]; try discriminate.
       destruct (zlen l =? 16) eqn:E16; cbn [negb] in E; [|discriminate]. apply Z.eqb_eq in E16.
-      destruct (elems_acc sigt ssr59 ssr65 cap59 cap65 elem He Hp Hc l d o d' o' Hb Ho E) as [M4 [B4 [L4 [A4 [l' D4]]]]].
+      destruct (elems_acc sigt ssr59 ssr65 cap59 cap65 elem He Hp Hc l d o d' o' Hb Ho E) as [M4 [B4 [L4 [A4 [l' [D4 S4]]]]]].
       split; [exact M4|]. split; [exact B4|]. split; [exact L4|]. split; [exact A4|].
-      exists (VList l').
+      exists (VList l'). split; [|apply sh_list; exact S4].
       change (dec (FGrid16 elem) d' o) with ('(l, off1) <- el_dec elem d' 16%nat o ;; Ok (VList l, off1)).
       replace 16%nat with (length l) by (unfold zlen in E16; lia). rewrite D4. reflexivity.
   Qed.
